@@ -155,6 +155,88 @@ func (r *atRun) materialiseForeign(jstart int, acts []foreignAct, g *simkit.Gen)
 	return out
 }
 
+// checkC09Race judges an episode whose foreign writer ran concurrently with
+// phase two. The rollback transaction checks the current rows and then writes
+// them; the check must keep every row it is going to write locked until its
+// commit, so no foreign write to such a row may become effective between the
+// check and the compensating write of a rollback transaction that commits.
+func (r *atRun) checkC09Race(o *episodeObs) {
+	w := r.w
+	j := w.Srv.JournalFrom(o.jstart)
+	foreignSQL := map[string]bool{}
+	for _, st := range o.foreign {
+		foreignSQL[st.SQL] = true
+	}
+	type fw struct {
+		seq uint64
+		wr  simdb.RowWrite
+		sql string
+	}
+	var fws []fw
+	for _, e := range j {
+		if e.Err != "" || !foreignSQL[e.SQL] || !r.isHarnessConn(e.Conn) {
+			continue
+		}
+		for _, wr := range appWrites(e.Writes) {
+			fws = append(fws, fw{e.Seq, wr, e.SQL})
+		}
+	}
+	if len(fws) == 0 {
+		return
+	}
+	w.Sim.Probe("c09-foreign-writer-raced-phase-two")
+	for _, t := range splitLocalTxns(j) {
+		if !t.committed {
+			continue
+		}
+		isP2 := false
+		for _, e := range t.entries {
+			if e.Class == "select-for-update-undo" {
+				isP2 = true
+			}
+		}
+		if !isP2 {
+			continue
+		}
+		// first read of each application table inside the rollback transaction
+		checked := map[string]uint64{}
+		for _, e := range t.entries {
+			if e.Kind != "QUERY" || e.Err != "" || e.Class == "select-for-update-undo" {
+				continue
+			}
+			up := strings.ToUpper(e.SQL)
+			if i := strings.Index(up, " FROM "); i >= 0 {
+				rest := strings.Fields(e.SQL[i+6:])
+				if len(rest) > 0 {
+					tn := strings.ToLower(strings.Trim(rest[0], "`"))
+					if _, ok := checked[tn]; !ok {
+						checked[tn] = e.Seq
+					}
+				}
+			}
+		}
+		for _, e := range t.entries {
+			if e.Err != "" {
+				continue
+			}
+			for _, cw := range appWrites(e.StmtWrites) {
+				tn := strings.ToLower(cw.Table[strings.LastIndex(cw.Table, ".")+1:])
+				v, ok := checked[tn]
+				if !ok {
+					continue
+				}
+				for _, f := range fws {
+					if f.wr.Table == cw.Table && f.wr.Key == cw.Key && f.seq > v && f.seq < e.Seq {
+						w.Sim.Probe("c09-foreign-write-between-check-and-compensation")
+						r.violate("C09", "rollback-keeps-foreign-write", "foreign-write-overwritten-in-flight", "episode %d: the foreign statement %q changed row %s[%s] at seq %d, after the rollback transaction on c%d had checked the table (seq %d) and before its compensating statement %q (seq %d); the rollback committed", o.idx, f.sql, cw.Table, cw.Key, f.seq, t.conn, v, e.SQL, e.Seq)
+						return
+					}
+				}
+			}
+		}
+	}
+}
+
 // numericTwin: for a text value that reads as a number, a different text that
 // reads as the same float64 ("1.10" -> "1.100", "007" -> "0007", 19 digits ->
 // last digit changed).
@@ -264,6 +346,7 @@ func runC09(t *testing.T, seed uint64, planJSON []byte, tier string) (res *Resul
 			replayForeign := planJSON != nil
 			if !replayForeign {
 				ep.Foreign = nil
+				ep.RaceForeign = g.Prob(0.3)
 				idx := i
 				r.foreignGen = func(jstart int) []ATStmt { return r.materialiseForeign(jstart, acts[idx], g) }
 			} else {
@@ -302,6 +385,10 @@ func (r *atRun) checkC09(o *episodeObs) {
 	w := r.w
 	g := w.TC.Globals[o.xid]
 	if g == nil || !o.done {
+		return
+	}
+	if o.ep.RaceForeign {
+		r.checkC09Race(o)
 		return
 	}
 	j := w.Srv.JournalFrom(o.jstart)
